@@ -91,9 +91,14 @@ struct Src {
 	mpt::input_parser_t next; void *narg;
 	Src(const uint8_t *d, size_t len, int e) : p(d), n(len), pos(0), eofcode(e), ended(false), ended_in_call(false), calls(0), after(0), after_in_call(0), elem_calls(0), next(0), narg(0) { }
 };
+// Termination is judged by the engine's watchdog (no heartbeat for 15 s = HANG).  The heartbeat is given per DELIVERED input
+// character, so the allowance scales with the input size: a slow (e.g. quadratic in the nesting depth) but terminating parse
+// passes, a loop that stops consuming input - or keeps asking an exhausted source - is still reported.
+static Run *g_run;
 static int src_getc(void *a)
 {
 	Src *s = (Src *) a;
+	if (!s->ended && s->pos < s->n && g_run) g_run->beat();
 	++s->calls;
 	if (s->ended) { ++s->after; if (s->ended_in_call) ++s->after_in_call; return s->eofcode; }
 	if (s->pos >= s->n) { s->ended = s->ended_in_call = true; return s->eofcode; }
@@ -1013,6 +1018,7 @@ static void flush_counters(Run &r)
 void mc_explore(Run &r, const std::string &job)
 {
 	for (const char *k : required) r.require(k);
+	g_run = &r;
 	Job j = parse_job(r, job);
 	struct timespec t0, t1; clock_gettime(CLOCK_MONOTONIC, &t0);
 	dfs(r, [&](Ctx &x) { body(r, x, j); });
@@ -1022,6 +1028,7 @@ void mc_explore(Run &r, const std::string &job)
 }
 void mc_replay(Run &r, const std::string &job, const Vec &v)
 {
+	g_run = &r;
 	Job j = parse_job(r, job);
 	dfs_replay(r, [&](Ctx &x) { body(r, x, j); }, v);
 }
